@@ -927,7 +927,7 @@ func main() {
 		} else {
 			c.Count("self-test:read-detected-by-atime")
 		}
-		n := c.Size(1200, 20000)
+		n := c.Size(2000, 20000)
 		for i := 0; i < n; i++ {
 			if i%5 == 4 {
 				w.scanCase(c, i)
